@@ -14,6 +14,7 @@ from ..install import ctx as _ctx
 from ..bootstrap import smod
 
 NEEDS_NATIVE = True
+REPO_TESTS_UNDER_CONTRACTS = True
 RULE = ('groups = (class, real/complex, N, NFFT even/odd/None, sampling log-uniform in (1e-2,1e5) or integer-typed, '
         'relation in {scale on/off, two sampling rates}); arma2psd cases = (len A, len B incl. A-only / B-only, '
         'real/complex coefficients, rho, T, NFFT > max length); every case is non-trivial; distinct = distinct descriptor')
@@ -46,6 +47,8 @@ def post_arma2psd(A, B, rho, T, NFFT, sides, norm, result):
         return c.discard('arma2psd:too-large-for-explicit-sums')
     Af = refs.poly_on_grid(np.concatenate([[1.0], a]), nfft) if a is not None else np.ones(nfft)
     Bf = refs.poly_on_grid(np.concatenate([[1.0], b]), nfft) if b is not None else np.ones(nfft)
+    if float(np.min(np.abs(Af))) <= 1e-9 * max(1.0, float(np.max(np.abs(Af)))):
+        return c.discard('arma2psd:pole-on-the-grid')
     ref = float(np.real(rho)) / float(T) * np.abs(Bf) ** 2 / np.abs(Af) ** 2
     feats = {'fn': 'arma2psd', 'has_A': a is not None, 'has_B': b is not None,
              'cplx': bool((a is not None and np.iscomplexobj(a)) or (b is not None and np.iscomplexobj(b)))}
